@@ -259,6 +259,16 @@ func (f *Func) pruneFlagEdgesN(g *cfgx.Graph, depth int) {
 		})
 	}
 	scan(g.Body, false)
+	// named results are locals too (zero at entry; the analysis starts them as "either", which is weaker)
+	if f.Type != nil && f.Type.Results != nil {
+		for _, fld := range f.Type.Results.List {
+			for _, nm := range fld.Names {
+				if o := info.Defs[nm]; o != nil && varKind(o) != 0 {
+					declared[o] = true
+				}
+			}
+		}
+	}
 	// only variables that some leaf condition tests are worth tracking
 	for _, n := range g.Nodes {
 		for _, e := range n.Succs {
